@@ -609,6 +609,8 @@ pub fn run(mode: &str, tier: Tier, seed: u64, o: &mut Out) {
     let corpus = [
         "(pgcase c02 (((((1 1)) ((0 0 0 0))) 0)) (((1 1)) ((0 0 0 0))) default)",
         "(pgcase c02 (((((0 0)) ()) 0)) (((0 0) (1 1)) ()) default)",
+        // D10, the case pinned as Theorem c04_portgraph_runs_differ_refuted (Cert/D10Witness.v)
+        "(pgcase c04 (((((3 1) (1 2)) ((1 1 0 0) (0 0 0 1))) 1) ((((1 2) (2 2) (1 2)) ((1 1 0 0) (1 0 2 0))) 0)) (((1 1) (2 2) (1 2) (1 2)) ((1 0 0 0) (1 1 2 0) (0 0 3 0) (2 1 1 0) (3 1 1 1))) default)",
         // D5, smallest witness (Theorem c05_portgraph_complete_refuted_line_through_root)
         "(pgcase c02 (((((2 2) (2 0)) ((0 1 1 0) (0 0 0 1))) 0)) (((2 2) (2 0)) ((0 1 1 0) (0 0 0 1))) default)",
         // D6, smallest witness (Theorem c05_portgraph_complete_refuted_root_hidden): found in itself, hidden by one more port
